@@ -72,6 +72,17 @@ def run_case(c):
             ok_ext = False
     fr.ts = ts_keep
     out["ts_ext_follows_ts"] = ok_ext
+    # the start time may be reassigned after construction (Cadence.overwrite_times does): quantities derived from it must follow
+    t_keep = fr.t_start
+    bad_rt = None
+    for off in (1000.0, -42.5, 3 * fr.tchans * fr.dt):
+        fr.t_start = t_keep + off
+        want = fr.t_start + fr.tchans * fr.dt
+        if abs(fr.t_stop - want) > 1e-9 * max(1.0, abs(want)) or abs(fr.obs_length - fr.tchans * fr.dt) > 1e-9 * max(1.0, fr.tchans * fr.dt):
+            bad_rt = "t_start moved by %r s: t_stop %r, expected t_start + tchans*dt = %r (obs_length %r)" % (off, float(fr.t_stop), float(want), float(fr.obs_length))
+            break
+    fr.t_start = t_keep
+    out["retime"] = bad_rt
     out["drift_rate"] = hx(fr.get_drift_rate(pj[0], pj[-1])) if pj else None
     # whole-axis facts
     out["increasing"] = bool(np.all(np.diff(fr.fs) > 0)) if F > 1 else True
